@@ -83,15 +83,17 @@ TABLES = _Tables({
     # the second operand of a follow-up merge is itself a merged token; a whole-word entry competing with lower ids
     'mb_second': _t(('bc', 0), ('abc', 1), ('abcd', 2)),
     'whole_word': _t(('bc', 0), ('ab', 1), ('cd', 2), ('abcd', 3)),
+    # two merges overlapping in the byte with id 0 (U+0000): an emptied slot must not be mistaken for the NUL byte
+    'nul': _t(('a\x00', 0), ('\x00b', 1)),
 })
 # per-table text alphabets (code points) and maximal text length for the long-word tables
 TABLE_ALPHA = _Alpha({
     'mb_second': ([0x61, 0x62, 0x63, 0x64], 4), 'whole_word': ([0x61, 0x62, 0x63, 0x64], 4),
     'overlap5': ([0x61, 0x62, 0x63, 0x64, 0x65], 5), 'overlap6': ([0x61, 0x62, 0x63], 6), 'left_first': ([0x61, 0x62, 0x63, 0x64], 4),
-    'split_mb': ([0xE4, 0xF6, 0xFC, 0x61], 3), 'both_r': ([0x61, 0x62, 0x63, 0x64, 0x20], 4), 'both_l': ([0x61, 0x62, 0x63, 0x64, 0x20], 4),
+    'nul': ([0x61, 0x00, 0x62], 3), 'split_mb': ([0xE4, 0xF6, 0xFC, 0x61], 3), 'both_r': ([0x61, 0x62, 0x63, 0x64, 0x20], 4), 'both_l': ([0x61, 0x62, 0x63, 0x64, 0x20], 4),
 })
 BOUNDS = {
-    'quick': 'merge tables: the 21 well-formed tables of harnesses/c03.py plus 16 generated well-formed tables of 2-4 merges over {a, b, c, d} sampled per VERIF_SEED (depth <= 4: chains, competing / overlapping merges, tokens '
+    'quick': 'merge tables: the 22 well-formed tables of harnesses/c03.py plus 16 generated well-formed tables of 2-4 merges over {a, b, c, d} sampled per VERIF_SEED (depth <= 4: chains, competing / overlapping merges, tokens '
              'extendable in both directions, merges across the leading space and through 2-byte characters); texts: <= 4 symbolic characters over '
              '{a, b, c, d, space, tab, ä} plus one unconstrained 3-byte character position; ignore_special_tokens both',
     'thorough': 'texts of <= 5 symbolic characters, 120 generated tables',
